@@ -73,7 +73,8 @@ def gen_case(rng, pid, uid):
     robot_classes = [{"name": f"RB{i}_{uid}", "components": p} for i, p in enumerate(parts)]
     comps = {}
     defaults = [0, False, None, "idle", 1.5, -1, True, ""]
-    fbnames = ["get_x", "x", "get_get_x", "getter", "get_target", "is_ready", "get_", "getx", "get_get_"]
+    fbnames = ["get_x", "x", "get_get_x", "getter", "get_target", "is_ready", "get_", "getx", "get_get_", "widget_count", "target_get_x",
+               "budget_left"]
     p_fb = 0.8 if pid == "C11" else 0.4
     for cn in cnames:
         c = {"has_setup": rng.random() < 0.7, "has_on_enable": rng.random() < 0.7, "has_on_disable": rng.random() < 0.7,
@@ -195,7 +196,7 @@ def _gen_fb(rng, fbnames, j, uid):
     if rng.random() < 0.3:
         key = rng.choice([f"k{j}{uid}", f"sub{uid}/k{j}", f"get_k{j}{uid}"])
     hint = rng.choice(HINTS)
-    return {"name": name, "key": key, "hint": hint, "variant": rng.randrange(3),
+    return {"name": name, "key": key, "hint": hint, "variant": rng.randrange(5),
             "nohint_kind": rng.choice(["float", "bool", "str", "int"]),
             "same_object": bool(hint and hint.endswith("[]") and rng.random() < 0.4),
             "string_hint": bool(hint) and rng.random() < 0.3}
@@ -403,13 +404,18 @@ def check_sequence(spec, run, V: Verdicts, acc):
                 kind = "loop-stopped-by-fault-at:" + sk
             V.add(owner, kind, f"the control loop stopped after {len(obs_chunks)} of {len(exp_chunks)} iterations; escaped={run.escaped!r}")
         return fired, n_cmp
-    # ---- after endCompetition: only leave callbacks may follow
+    # ---- after endCompetition(): shutdown leaves the mode like any other mode change (the quantifier includes shutdown
+    # in any mode): the leave callbacks of teleop / autonomous are delivered, and nothing else
     tail_sites = [e[1] for e in tail if e[0] == "cb"]
     allowed = {s for slot in leave_last for s in slot[1]}
     extra = [s for s in tail_sites if s not in allowed]
-    acc.checks += 1
+    acc.checks += 2
+    propagated = fault_timeline(spec, log)[1] is not None
     if extra:
         V.add("C06", "after-endCompetition", f"callbacks after endCompetition(): {tail_sites}, only {sorted(allowed)} may run")
+    elif not propagated and sorted(tail_sites) != sorted(s for slot in leave_last for s in slot[1]):
+        V.add("C06", "no-on_disable-at-shutdown", f"endCompetition() in {meta[-1]['mode']}: expected the leave callbacks "
+                                                  f"{sorted(allowed)}, observed {tail_sites}")
     else:
         V.ev("end:" + meta[-1]["mode"])
     return fired, n_cmp
